@@ -23,9 +23,11 @@ Section Session.
     intros prog. induction tss as [|[t st] tss IH]; intros i p d; [reflexivity|].
     cbn [obj_loop run_loop].
     specialize (IH (i + 1)%Z (rp_tick p t st i)
-                   (prog (rp_clock (rp_tick p t st i)) (det_empty A zero E (negb (rp_nd (rp_tick p t st i))) d))).
+                   (det_extract A E (prog (rp_clock (rp_tick p t st i))
+                                          (det_empty A zero E (loop_reset (e_loop_reset E) (rp_nd (rp_tick p t st i))) d)))).
     destruct (obj_loop A zero E prog (i + 1)%Z tss (rp_tick p t st i)
-                (prog (rp_clock (rp_tick p t st i)) (det_empty A zero E (negb (rp_nd (rp_tick p t st i))) d)))
+                (det_extract A E (prog (rp_clock (rp_tick p t st i))
+                                       (det_empty A zero E (loop_reset (e_loop_reset E) (rp_nd (rp_tick p t st i))) d))))
       as [os fin] eqn:El.
     cbn [fst] in *. rewrite IH. reflexivity.
   Qed.
@@ -58,9 +60,9 @@ Section Session.
     rewrite Hs. destruct (rp_init G ro) as [p|] eqn:Hp.
     - destruct (rp_init_fields ro p Hp) as [ts [Ht [Hg [H1 [H2 [H3 [H4 H5]]]]]]].
       pose proof (obj_loop_refines prog (combine (rp_times p) (rp_steps p)) 0%Z p
-                                   (det_empty A zero E true (ds_det st))) as Hr.
+                                   (det_init A zero E (ds_det st))) as Hr.
       destruct (obj_loop A zero E prog 0%Z (combine (rp_times p) (rp_steps p)) p
-                         (det_empty A zero E true (ds_det st))) as [os fin].
+                         (det_init A zero E (ds_det st))) as [os fin].
       cbn [fst] in *. rewrite Hr. unfold run_readout. rewrite Ht, Hg, H1, H2, H3, H4, H5. reflexivity.
     - cbn [fst]. symmetry. apply rp_init_none. exact Hp.
   Qed.
@@ -169,6 +171,7 @@ Section Session.
       nth_error (session A zero G E SRAlwaysNew runs st) k = Some (Ran trace)
       /\ forall i o, nth_error trace i = Some o ->
            scene (o_begin o) = None /\ photon (o_begin o) = None /\ charge (o_begin o) = None
+           /\ cframe (o_begin o) = None
            /\ signal (o_begin o) = None /\ image (o_begin o) = None
            /\ pixel (o_begin o) =
               match i with
